@@ -26,6 +26,7 @@
 enum ExitClass { XC_OK = 0, XC_ILLCOND = 1, XC_SINGULAR = 2, XC_NOSPACE = 3, XC_QUERY = 4, XC_ARGERR = 5, XC_ABORT = 6, XC_HANG = 7, XC_NONE = 8, XC_BREAKDOWN = 9 };
 static const char *const kExitName[] = {"ok", "illcond", "singular", "nospace", "query", "argerror", "abort", "hang", "none", "ilu-breakdown"};
 extern __thread char g_cur_op_kind[32];
+extern bool g_force_user_workspace;
 
 struct ExecCfg {
     bool chk_structure = true, chk_identity = true, chk_residual = true;
@@ -844,7 +845,12 @@ template <class K> struct World {
         }
     }
 
-    void run_op(const Op &o) {
+    void run_op(const Op &o0) {
+        Op o = o0;
+#if defined(XSDK_INDEX_SIZE) && (XSDK_INDEX_SIZE == 64)
+        // 64-bit index build + single precision real + caller workspace is a recorded finding (KF4): library allocation instead
+        if (K::letter == 's' && o.lwork > 0 && !g_force_user_workspace) o.lwork = 0;
+#endif
         trace.emplace_back();
         OpResult &r = trace.back(); r.kind = o.kind;
         snprintf(g_cur_op_kind, sizeof g_cur_op_kind, "%s", o.kind.c_str());
